@@ -121,7 +121,7 @@ def run_case(case):
         for v in dd:
             spec[v] = {"kind": "disc", "n": int(rng.integers(12, 21))}
     sizes = rng.permutation([2, 3, 4, 5, 6, 7])[: n_ct]
-    if i % 7 == 5 and n_ct >= 1:
+    if i % 7 == 5 and n_ct >= 1 and x64:  # single precision cannot resolve thousands of cells to the tolerance used here
         sizes = list(sizes)
         sizes[0] = int(rng.integers(800, 2500))  # a long axis: node indices in the thousands
         add("long_axis_cases")
@@ -207,6 +207,7 @@ def run_case(case):
     for v in dd:
         pts[v] = rng.integers(0, spec[v]["n"], K)
     kind_pt = rng.integers(0, 4, K)  # 0 node, 1 midpoint, 2 interior, 3 outside (lin) / interior (log)
+    int_typed = set()
     outside = np.zeros(K, bool)
     for v in ct:
         g = grid[v]
@@ -221,6 +222,10 @@ def run_case(case):
         else:
             out = inter
         val = np.choose(kind_pt, [node, mid, inter, out])
+        if i % 6 == 4 and np.floor(g[-1]) - np.ceil(g[0]) >= 1:
+            # integer-VALUED evaluation points, handed over with an integer dtype (see mk)
+            val = rng.integers(int(np.ceil(g[0])), int(np.floor(g[-1])) + 1, K).astype(float)
+            int_typed.add(v)
         pts[v] = val
         if spec[v]["kind"] == "lin":
             outside |= (kind_pt == 3)
@@ -270,7 +275,8 @@ def run_case(case):
         add("narrow_label_dtype_cases")
 
     def mk(pts_):
-        return [jnp.asarray(np.asarray(pts_[v]).astype(label_dtype)) if (label_dtype is not None and v in sp + dd) else jnp.asarray(pts_[v]) for v in names]
+        return [jnp.asarray(np.asarray(pts_[v]).astype(label_dtype)) if (label_dtype is not None and v in sp + dd)
+                else (jnp.asarray(np.asarray(pts_[v]).astype(np.int64)) if v in int_typed else jnp.asarray(pts_[v])) for v in names]
 
     try:
         # scalar calls (first 6 points)
@@ -304,6 +310,7 @@ def run_case(case):
         return res
     add("node_points", int((kind_pt == 0).sum()) if ct else K)
     add("outside_points", int(outside.sum()))
+    int_typed.clear()  # the structural clauses below use fractional points
     # ---- structural clauses, directly ---------------------------------------------------------
     if ct:
         v = ct[int(rng.integers(0, len(ct)))]
